@@ -200,7 +200,7 @@ func VerifC05_EClean() {
 		"(set 'x 1) (ignore-errors (set 'x 2) (error 'e 1)) (let ((q 1)) (set 'y (+ q 2)))",
 	}
 	pi := vndChoice("prog", vParam("nprogs", len(progs)))
-	entry := vndChoice("entry", 3)
+	entry := vndChoice("entry", 6)
 	n := vndInt64("budget")
 	vAssume(n >= 1)
 	ps := &probeState{}
@@ -216,11 +216,22 @@ func VerifC05_EClean() {
 		exprs, err := env.Runtime.Reader.Read("prog", stringsReader("(progn "+progs[pi]+")"))
 		vAssert(err == nil && len(exprs) == 1, "program parses")
 		r = env.Eval(exprs[0])
+	case 3:
+		// FunCall of a function whose body is the program
+		d := env.LoadString("def", "(defun main-entry () "+progs[pi]+")")
+		vAssume(d.Type != lisp.LError) // the definition itself runs under the budget too
+		fn := env.GetFunGlobal(lisp.Symbol("main-entry"))
+		vAssert(fn.Type == lisp.LFun, "entry function defined")
+		r = env.FunCall(fn, lisp.Nil())
+	case 4:
+		r = env.Load("prog", stringsReader(progs[pi]))
+	case 5:
+		r = env.LoadLocation("prog", "/src/prog.lisp", stringsReader(progs[pi]))
 	}
 	vObserve("prog", pi)
 	vObserve("outcome", outcome(r))
 	vAssert(!lisp.IsInternalPanic(r), "no host panic")
-	if entry == 2 && pi == 4 {
+	if (entry == 2 || entry == 3) && pi == 4 {
 		// Eval is not a load: a top-level in-package it completed stays in effect
 		env.InPackage(lisp.Symbol("user"))
 	}
